@@ -1,5 +1,6 @@
 import Model.BitSetMachine
 import Lemmas.BitSetBounds
+import Lemmas.BitSetHeapLemmas
 /-! C08: no `int` overflow — the transcription with checked 64-bit arithmetic (`Model/BitSetMachine.lean`, `none` = Go
     would have wrapped an index) returns `some` of what the total model computes, for every argument up to
     `math.MaxInt`, on every storage whose length in bits fits an `int` (fewer than 2^57 words; `make` cannot return more). -/
@@ -355,5 +356,146 @@ theorem clearRangeHalfOpenM_overflow (b : T) (s : Nat) (hs : s ≤ maxInt) : cle
     · rfl
   rw [this, fit?_gt _ (by omega)]
   rfl
+
+
+/-! ### whole histories: a bound on the storage that every history of "small" calls keeps
+
+`Fits` is not kept by arbitrary calls (doubling a storage of 2^56 words leaves it), so the history theorem carries a
+bound on the arguments that STORE something: indexes below 2^61, `EnsureCapacity` up to 2^55 words, `Load` of up to
+2^56 words.  Then no storage ever exceeds 2^56 words (2^59 bytes — far beyond what `make` can return), and calls that
+never allocate (`Clear`, `ClearRange`) take every argument up to `math.MaxInt`. -/
+
+def lenBound : Nat := 72057594037927936
+theorem lenBound_eq : lenBound = 2 ^ 56 := by decide
+
+def LenB (b : T) : Prop := b.data.length ≤ lenBound
+
+theorem lenB_fits (b : T) (h : LenB b) : Fits b := by
+  unfold LenB lenBound at h; unfold Fits; rw [maxInt_eq]; omega
+
+/-- sharper than `ensure_length_le`: growth happens only when more was asked for than there is -/
+theorem ensure_length_le2 (b : T) (n : Nat) : (ensureCapacity b n).data.length ≤ max b.data.length (2 * n) := by
+  unfold ensureCapacity
+  simp only
+  split
+  · simp only [List.length_append, List.length_replicate]; split <;> omega
+  · omega
+
+/-- the arguments of a call are "small": see the section comment -/
+def Op.Small : Op → Prop
+  | .set _ i | .flip _ i => i < 2 ^ 61
+  | .setRange _ s e | .flipRange _ s e => s < 2 ^ 61 ∧ e < 2 ^ 61
+  | .clear _ i => i ≤ maxInt
+  | .clearRange _ s e => s ≤ maxInt ∧ e ≤ maxInt
+  | .ensure _ n => n ≤ 2 ^ 55
+  | .load _ ws => ws.length ≤ 2 ^ 56
+  | _ => True
+
+theorem small_args (op : Op) (h : op.Small) : ∀ a ∈ op.args, a ≤ maxInt := by
+  intro a ha
+  cases op <;> simp only [Op.args, List.mem_cons, List.not_mem_nil, or_false] at ha <;>
+    simp only [Op.Small] at h <;> simp only [maxInt_eq] at * <;>
+    first | omega | (rcases ha with ha | ha <;> omega) | cases ha
+
+theorem lenB_ensure (b : T) (n : Nat) (hb : LenB b) (hn : n ≤ 2 ^ 55) : LenB (ensureCapacity b n) := by
+  have := ensure_length_le2 b n
+  unfold LenB lenBound at *; omega
+
+theorem wordIdx_small (i : Nat) (h : i < 2 ^ 61) : wordIdx i + 1 ≤ 2 ^ 55 := by rw [wordIdx_eq]; omega
+
+theorem rangeWords_small (s e : Nat) (hs : s < 2 ^ 61) (he : e < 2 ^ 61) : rangeWords s e ≤ 2 ^ 55 := by
+  unfold rangeWords
+  split <;> exact wordIdx_small _ (by assumption)
+
+theorem setRangeIP_length (b : T) (s e : Nat) : (setRangeIP b s e).data.length = b.data.length := by
+  unfold setRangeIP; exact runRange_length _ _ _ _ _ _ _
+theorem flipRangeIP_length (b : T) (s e : Nat) : (flipRangeIP b s e).data.length = b.data.length := by
+  unfold flipRangeIP; exact runRange_length _ _ _ _ _ _ _
+
+theorem load_length_le (b : T) (ws : List W) : (load b ws).data.length ≤ ws.length := by
+  rw [load_data_eq]; exact trim_length_le { b with data := ws }
+
+/-- one small call keeps both storages within the bound -/
+theorem applyOp_lenB (p : Pair) (op : Op) (hp : ∀ r, LenB (p.get r)) (hs : op.Small) : ∀ r, LenB ((applyOp p op).get r) := by
+  have put : ∀ (q : Reg) (v : T), LenB v → ∀ r, LenB ((p.put q v).get r) := by
+    intro q v hv r; rw [get_put]; split
+    · exact hv
+    · exact hp r
+  cases op with
+  | set q i =>
+    apply put; unfold LenB; rw [setBit_split, setBitIP_length]; exact lenB_ensure _ _ (hp q) (wordIdx_small i hs)
+  | flip q i =>
+    apply put; unfold LenB; rw [flipBit_split, flipBitIP_length]; exact lenB_ensure _ _ (hp q) (wordIdx_small i hs)
+  | clear q i => apply put; unfold LenB; rw [clearBit_length]; exact hp q
+  | setRange q s e =>
+    apply put; unfold LenB; rw [setRange_split, setRangeIP_length]
+    exact lenB_ensure _ _ (hp q) (rangeWords_small s e hs.1 hs.2)
+  | flipRange q s e =>
+    apply put; unfold LenB; rw [flipRange_split, flipRangeIP_length]
+    exact lenB_ensure _ _ (hp q) (rangeWords_small s e hs.1 hs.2)
+  | clearRange q s e => apply put; unfold LenB; rw [clearRange_length]; exact hp q
+  | load q ws =>
+    apply put; have := load_length_le (p.get q) ws
+    simp only [Op.Small] at hs; unfold LenB lenBound; omega
+  | copy q q' => apply put; exact hp q'
+  | clone q q' => apply put; exact hp q'
+  | trim q => apply put; have := trim_length_le (p.get q); have := hp q; unfold LenB at *; omega
+  | ensure q n => apply put; exact lenB_ensure _ _ (hp q) hs
+  | reset q => apply put; unfold LenB reset lenBound; simp
+  | data q => apply put; have := trim_length_le (p.get q); have := hp q; unfold LenB at *; exact Nat.le_trans ‹_› ‹_›
+  | loadData q q' =>
+    have h1 : LenB (trim (p.get q')) := by
+      have := trim_length_le (p.get q'); have := hp q'; unfold LenB at *; omega
+    intro r
+    show LenB (((p.put q' (trim (p.get q'))).put q (load _ (trim (p.get q')).data)).get r)
+    rw [get_put]; split
+    · exact Nat.le_trans (load_length_le _ _) h1
+    · rw [get_put]; split
+      · exact h1
+      · exact hp r
+
+theorem foldlM_applyOpM (ops : List Op) : ∀ p : Pair, (∀ r, LenB (p.get r)) → (∀ op ∈ ops, op.Small) →
+    ops.foldlM applyOpM p = some (ops.foldl applyOp p) := by
+  induction ops with
+  | nil => intro p _ _; rfl
+  | cons op ops ih =>
+    intro p hp hs
+    have h1 := hs op (List.mem_cons_self ..)
+    rw [List.foldlM_cons, applyOpM_eq p op (fun r => lenB_fits _ (hp r)) (small_args op h1)]
+    simp only [Option.bind_eq_bind, Option.bind_some, List.foldl_cons]
+    exact ih _ (applyOp_lenB p op hp h1) (fun o ho => hs o (List.mem_cons_of_mem _ ho))
+
+theorem lenB_init : ∀ r, LenB (({} : Pair).get r) := by
+  intro r; cases r <;> (unfold LenB lenBound; simp [Pair.get])
+
+/-- a whole history with checked `int` arithmetic and checked word accesses -/
+def runM (ops : List Op) : Option Pair := ops.foldlM applyOpM {}
+
+theorem runM_eq (ops : List Op) (h : ∀ op ∈ ops, op.Small) : runM ops = some (run ops) :=
+  foldlM_applyOpM ops {} lenB_init h
+
+theorem run_lenB (ops : List Op) (h : ∀ op ∈ ops, op.Small) : ∀ r, LenB ((run ops).get r) := by
+  have key : ∀ (l : List Op) (p : Pair), (∀ r, LenB (p.get r)) → (∀ op ∈ l, op.Small) → ∀ r, LenB ((l.foldl applyOp p).get r) := by
+    intro l
+    induction l with
+    | nil => intro p hp _; exact hp
+    | cons op l ih =>
+      intro p hp hs
+      exact ih _ (applyOp_lenB p op hp (hs op (List.mem_cons_self ..))) (fun o ho => hs o (List.mem_cons_of_mem _ ho))
+  exact key ops {} lenB_init h
+
+/-- the cached count never leaves `[0, 64·len]` between calls: it fits an `int` whenever the storage does -/
+theorem count_bounds (b : T) (h : Inv b) : 0 ≤ b.set ∧ b.set ≤ Int.ofNat (b.data.length * 64) := by
+  unfold Inv at h
+  have := card_le b.data
+  rw [h]; simp only [Int.ofNat_eq_natCast]; omega
+
+/-- the bound on the stored indexes is needed: doubling a storage of 2^56+1 words passes 2^57 words, and then `LastSet`
+    wraps; and `EnsureCapacity` itself wraps (`size *= 2`) on a storage of 2^62 words -/
+theorem ensureCapacityM_overflow (b : T) (n : Nat) (h : maxInt < b.data.length * 2) (hn : b.data.length < n) :
+    ensureCapacityM b n = none := by
+  unfold ensureCapacityM
+  simp only [Option.bind_eq_bind]
+  rw [if_pos hn, fit?_gt _ h]; rfl
 
 end BS
